@@ -300,3 +300,66 @@ func TcbModel(w *World) TcbOutcome {
 	out.Accept = true
 	return out
 }
+
+// ---------------------------------------------------------------------------
+// QE identity reference model (C07)
+// ---------------------------------------------------------------------------
+
+// QeOutcome is the model's decision.
+type QeOutcome struct {
+	Accept bool
+	Reason string
+	Level  int
+}
+
+// QeModel evaluates the QE report of the world's quote against its QE Identity document.
+func QeModel(w *World) QeOutcome {
+	q, d := w.Q, &w.QeID
+	out := QeOutcome{Level: -1}
+	if len(d.Miscselect) != 4 || len(d.MiscselectMask) != 4 {
+		out.Reason = "miscselect size"
+		return out
+	}
+	var ms [4]byte
+	binary.LittleEndian.PutUint32(ms[:], q.QeMiscSelect)
+	for i := 0; i < 4; i++ {
+		if ms[i]&d.MiscselectMask[i] != d.Miscselect[i] {
+			out.Reason = "masked miscselect differs"
+			return out
+		}
+	}
+	if len(d.AttributesMask) != 16 || len(d.Attributes) != 16 {
+		out.Reason = "attributes size"
+		return out
+	}
+	for i := 0; i < 16; i++ {
+		if q.QeAttributes[i]&d.AttributesMask[i] != d.Attributes[i] {
+			out.Reason = "masked attributes differ"
+			return out
+		}
+	}
+	if !bytes.Equal(d.Mrsigner, q.QeMrSigner[:]) {
+		out.Reason = "mrsigner differs"
+		return out
+	}
+	if d.IsvProdID != q.QeIsvProdID {
+		out.Reason = "isvprodid differs"
+		return out
+	}
+	for i, l := range d.Levels {
+		if l.Isvsvn <= uint32(q.QeIsvSvn) {
+			out.Level = i
+			break
+		}
+	}
+	if out.Level < 0 {
+		out.Reason = "no QE level matches"
+		return out
+	}
+	if st := d.Levels[out.Level].Status; st != "UpToDate" {
+		out.Reason = "QE level is " + st
+		return out
+	}
+	out.Accept = true
+	return out
+}
